@@ -74,6 +74,26 @@ func profiles() map[string]Profile {
 	m["C14"] = p
 
 	p = base
+	p.Name = "C10"
+	p.Stores, p.MemOnly = 2, 40
+	p.Snap, p.SnapClose, p.SetColl, p.RmColl, p.HeapCheck, p.Churn, p.NVisit = 10, 9, 5, 3, 14, 3, 6
+	p.Dump, p.Reopen, p.Flush, p.Evict, p.Revert = 6, 3, 5, 4, 1
+	m["C10"] = p
+
+	p = base
+	p.Name = "C18n" // nested API calls inside visitor callbacks
+	p.NVisit, p.Snap, p.SnapClose, p.HeapCheck = 25, 3, 2, 5
+	m["C18n"] = p
+
+	p = base
+	p.Name = "C15"
+	p.Snap, p.SnapClose, p.Visit, p.RefCheck, p.NVisit, p.SetColl, p.RmColl, p.Len = 5, 4, 8, 10, 2, 2, 2, 2
+	p.Flush, p.Evict, p.Reopen, p.Drop = 8, 8, 5, 0
+	p.CloseAll, p.NoGet, p.Get, p.GetI = true, true, 0, 12
+	p.Cfg = func(r *rand.Rand) int { return cbRefs | cbItemAlloc | (r.Intn(256) &^ cbValLength) }
+	m["C15"] = p
+
+	p = base
 	p.Name = "C17"
 	p.Flush, p.Image, p.Visit, p.Copy, p.Reopen, p.MemOnly = 10, 5, 6, 2, 6, 10
 	p.Cfg = func(r *rand.Rand) int { return r.Intn(256) }
